@@ -18,8 +18,8 @@ Definition factorize (n : Z) : list Z :=
     (flat_map (fun i => if n mod i =? 0 then [i; cdiv n i] else [])
               (range1 (Z.to_nat (sqrt_up n)))).
 
-(* get_possible_factor_sizes: the closure _try_admit over the state (factors, n_tiles) *)
-Definition try_admit (outer : Z) (st : list Z * list Z) (n : Z) : list Z * list Z :=
+(* get_possible_factor_sizes: the closure _try_take over the state (factors, n_tiles) *)
+Definition try_take (outer : Z) (st : list Z * list Z) (n : Z) : list Z * list Z :=
   let '(factors, ntiles) := st in
   if (outer <? n) || memZ n factors then st
   else
@@ -31,12 +31,12 @@ Definition factor_sizes (outer : Z) (imperfect : bool) (inner : Z) : list Z :=
   if imperfect then
     (* n = inner, 2*inner, ... while n <= outer *)
     let ns := map (fun j => j * inner) (range1 (Z.to_nat (outer / inner))) in
-    let st := fold_left (try_admit outer) ns ([], []) in
-    sort_uniq (fst (try_admit outer st outer))
+    let st := fold_left (try_take outer) ns ([], []) in
+    sort_uniq (fst (try_take outer st outer))
   else
     let base := map (fun f => f * inner) (factorize (cdiv outer inner)) in
     (* coarseness = 1: every candidate passes f >= prev * 1; n_tiles is still empty *)
-    sort_uniq (fst (try_admit outer (base, []) outer)).
+    sort_uniq (fst (try_take outer (base, []) outer)).
 
 (* _divisors(n) *)
 Definition divisors (n : Z) : list Z :=
